@@ -135,3 +135,10 @@ Proof.
         apply (expect_cleanup_model true tc PAssert st3 tcl rc _ _ _ Etc). cbn [o_failure option_map].
         destruct rc; destruct r5; reflexivity.
 Qed.
+
+(** the status reported for an expiry, in every mode in which the case runs *)
+Lemma expiry_reported_hard_error_in_every_mode :
+  translate_status TPass (Some FHard) = HARD_ERROR /\ translate_status TFail (Some FHard) = HARD_ERROR /\
+  forall mode act_only, mode <> TSkip ->
+    decode_ident mode act_only (Some (translate_status mode (Some FHard))) = Some (Some FHard).
+Proof. split; [reflexivity|]. split; [reflexivity|]. intros mode a H. destruct mode; reflexivity. Qed.
